@@ -86,3 +86,63 @@ def op_contract(name, kind, lw_method, exc):
 def install(world):
     register(world, op_contract("aspirate", "A", "remove", "VolumeUnderflowError"))
     register(world, op_contract("dispense", "D", "add", "VolumeOverflowError"))
+
+
+# ----------------------------------------------------------------------------- distribute
+
+RD = B + "reagent_distribution"
+
+
+def dist_scen(device, ndst, dst_trough=False):
+    def make(ex):
+        wl = sym_worklist(ex, device)
+        src = sym_labware(ex, "S", True, cls="Trough")
+        dst = sym_labware(ex, "D", dst_trough)
+        col = z3.Int("source_column")
+        wells = [some_well(ex, f"d{i}") for i in range(ndst)]
+        return {"self": wl, "source": src, "source_column": Sym(col, "int"), "destination": dst,
+                "destination_wells": SeqV.of("list", wells) if ndst > 1 else wells[0], "volume": sreal("volume"),
+                "liquid_class": sstr("liquid_class"), "label": sstr("label")}
+
+    return Scenario(f"{device}, trough -> {'trough' if dst_trough else 'plate'}, {ndst} destination well(s)", make,
+                    requires=["printable(label)", "printable(liquid_class)", "printable(source.name)", "printable(destination.name)",
+                              "not_aliased(source, destination)", "0 <= source_column"])
+
+
+NDST = "length(colmajor(destination_wells))"
+SRC_WELL = "well(0, source_column + 1)"
+DPOS = "device_pos(self, destination, colmajor(destination_wells)[i])"
+
+
+def install_distribute(world):
+    register(world, Contract(
+        func=B + "distribute", serves=["C01", "C03", "C11"],
+        scenarios=[dist_scen("EvoWorklist", 1), dist_scen("EvoWorklist", 2), dist_scen("EvoWorklist", 3, False),
+                   dist_scen("FluentWorklist", 2), dist_scen("EvoWorklist", 2, True)],
+        raises=[("ValueError", None), ("InvalidOperationError", None), ("KeyError", None), ("IndexError", None), ("AssertionError", None),
+                ("VolumeUnderflowError", None), ("VolumeOverflowError", None)],
+        ensures=[
+            ("one-R-record", "length(records(self)) == length(records(old_self)) + length(comment_records(label)) + 1 and "
+                             "is_prefix(records(old_self) + comment_records(label), records(self))", ["C01"]),
+            ("source-tracked", f"same(source._volumes, vol_minus(old_source._volumes, contrib(source, {SRC_WELL}, volume * {NDST})))", ["C01"]),
+            ("destination-tracked", "same(destination._volumes, vol_plus(old_destination._volumes, contrib(destination, destination_wells, volume)))", ["C01"]),
+            ("R-destinations", f"r_destinations_match(last(records(self)), seq_of({NDST}, lambda i: {DPOS}))", ["C01"]),
+            ("R-racks-and-volume", "r_header_matches(last(records(self)), source.name, destination.name, volume, liquid_class)", ["C01"]),
+            ("R-source-range-evo", "implies_host(self_is_evo(self), r_source_range(last(records(self)), 1 + source_column * length(source.row_ids), "
+                                   "(source_column + 1) * length(source.row_ids)))", ["C01"]),
+            ("one-history-entry-each", "length(source._history) == length(old_source._history) + 1 and "
+                                       "length(destination._history) == length(old_destination._history) + 1", ["C11"]),
+        ],
+        exc_ensures=[
+            ("no-R-record-on-abort", "is_prefix(records(self), records(old_self) + comment_records(label))", ["C03"]),
+        ],
+        policy={LW + "remove": "contract", LW + "add": "contract", RD: "contract"},
+    ))
+
+
+_inst_c01 = install
+
+
+def install(world):  # noqa: F811
+    _inst_c01(world)
+    install_distribute(world)
